@@ -135,6 +135,7 @@ type world struct {
 	logger *log.Logger
 	gate   *gateWriter
 	lines  lineHook
+	checked []common.UpkeepPayload // plug-in mode: payloads that reached the check pipeline
 }
 
 func (w *world) rel() int64 { return int64(time.Since(w.t0)) }
@@ -204,6 +205,18 @@ func (w *world) start() {
 		w.node = NewNode(w.t, NodeOpts{
 			Offchain: fmt.Sprintf(`{"performLockoutWindow":%d,"minConfirmations":%d}`, c.WindowMs, c.MinConf), N: 4, F: 1,
 			LogW: &w.lines,
+		})
+		// the check pipeline of the plug-in records what the flows hand it and reports a failed, non-retryable check:
+		// nothing is cached, staged, proposed or retried, so only the pre-processing of the flows decides what gets here
+		w.node.Runnable.SetFn(func(_ context.Context, ps ...common.UpkeepPayload) ([]common.CheckResult, error) {
+			w.mu.Lock()
+			defer w.mu.Unlock()
+			var out []common.CheckResult
+			for _, p := range ps {
+				w.checked = append(w.checked, p)
+				out = append(out, common.CheckResult{PipelineExecutionState: 1, UpkeepID: p.UpkeepID, Trigger: p.Trigger, WorkID: p.WorkID})
+			}
+			return out, nil
 		})
 	}
 	synctest.Wait()
@@ -392,6 +405,50 @@ func (w *world) doOp(op cOp) {
 		}
 		name := map[string]string{"acceptrep": "OAcceptRep", "transmitrep": "OTransmitRep"}[op.Kind]
 		w.emit(fmt.Sprintf("(%s, %s %s, RBL %s %s)", now, name, term, CoqBool(pr), CoqList(rs, CoqBool)))
+	case "offerlog", "offerrecov":
+		// plug-in mode: the work is offered to the node by its log provider (log-trigger flow) or by its recoverable
+		// provider (recovery-proposal flow).  Every flow pre-processes with the coordinator: what reaches the check
+		// pipeline is what PreProcess lets through.  The answer is recorded as an OPre observation when the
+		// coordinator's view of these items was the same before and after the flow's tick.
+		if w.node == nil {
+			return
+		}
+		sp := func(it cItem) bool {
+			return w.coord.(interface {
+				ShouldProcess(string, common.UpkeepIdentifier, common.Trigger) bool
+			}).ShouldProcess(c.workID(it.W), c.upkeepID(it.W), c.trigger(it.W, it.Blk))
+		}
+		before := make([]bool, len(op.Items))
+		ps := make([]common.UpkeepPayload, len(op.Items))
+		for i, it := range op.Items {
+			before[i] = sp(it)
+			ps[i] = common.UpkeepPayload{UpkeepID: c.upkeepID(it.W), Trigger: c.trigger(it.W, it.Blk), WorkID: c.workID(it.W)}
+		}
+		w.mu.Lock()
+		w.checked = nil
+		w.mu.Unlock()
+		if op.Kind == "offerlog" {
+			w.node.Logs.Push(ps...)
+		} else {
+			w.node.Recov.Push(ps...)
+		}
+		time.Sleep(1100 * time.Millisecond)
+		synctest.Wait()
+		stable := true
+		for i, it := range op.Items {
+			stable = stable && sp(it) == before[i]
+		}
+		w.mu.Lock()
+		got := append([]common.UpkeepPayload(nil), w.checked...)
+		w.mu.Unlock()
+		if stable {
+			var ids []string
+			var blks []uint64
+			for _, p := range got {
+				ids, blks = append(ids, p.WorkID), append(blks, uint64(p.Trigger.BlockNumber))
+			}
+			w.emit(fmt.Sprintf("(%s, OPre %s, RL %s)", now, CoqList(op.Items, c.coqItem), w.itemsOut(ids, blks, op.Items)))
+		}
 	case "should":
 		it := op.Items[0]
 		r := w.coord.(interface {
@@ -882,6 +939,14 @@ func boundary() []cCase {
 			cx(2, flt("acceptrep", cItem{0, 10}, cItem{1, 9}, cItem{3, 12}, cItem{4, 12})), tr(3, 12), tr(4, 12),
 			cx(3, flt("acceptrep", cItem{0, 11}, cItem{1, 11}, cItem{2, 11})), flt("transmitrep", cItem{2, 11}), flt("transmitrep", cItem{0, 11}, cItem{1, 11})}})
 	}
+	// the flows of the plug-in pre-process with the coordinator: work in flight (and performed log work) offered again by
+	// the log provider or the recoverable provider does not reach the check pipeline
+	cs = append(cs, cCase{Family: "plugin-flows-withhold-in-flight", WindowMs: 20000, MinConf: 0, Plugin: true, Ws: five, Ops: []cOp{
+		flt("acceptrep", cItem{1, 10}), flt("offerrecov", cItem{1, 10}, cItem{3, 10}), flt("offerlog", cItem{1, 11}, cItem{3, 11}),
+		evs(0, ev(1, 90, 1, 10, 12, 1)), sl(2 * sec), evs(0),
+		flt("offerrecov", cItem{1, 12}, cItem{3, 12}), flt("offerlog", cItem{3, 13}, cItem{1, 13}),
+		flt("acceptrep", cItem{3, 13}, cItem{0, 13}), flt("offerrecov", cItem{3, 14}, cItem{1, 14}),
+		evs(0, ev(3, 91, 2, 13, 15, 1)), sl(2 * sec), evs(0), flt("offerlog", cItem{3, 15}), flt("offerrecov", cItem{3, 16}, cItem{1, 16})}})
 	cs = append(cs, cCase{Family: "plugin-restart", WindowMs: 3000, MinConf: 1, Plugin: true, Ws: three, Ops: []cOp{
 		flt("acceptrep", cItem{0, 5}, cItem{1, 5}), tr(0, 5), {Kind: "restart"}, flt("transmitrep", cItem{0, 5}, cItem{1, 5}), flt("acceptrep", cItem{1, 5}), flt("transmitrep", cItem{0, 5}, cItem{1, 5})}})
 	return cs
@@ -1041,6 +1106,17 @@ func randomCase(r *Rng, emphasizeFilters bool) cCase {
 			c.Ops = append(c.Ops, evs(rep, batch...), sl(int64(1+r.Intn(3))*sec+int64(r.Intn(900))*ms))
 			if c.Plugin {
 				c.Ops = append(c.Ops, evs(0))
+			}
+		case k < 59 && c.Plugin:
+			// offered again by a provider of the plug-in: log-type work only
+			var its []cItem
+			for x := 0; x < nw && len(its) < 3; x++ {
+				if c.Ws[x].Type == 1 && r.Chance(2, 3) {
+					its = append(its, cItem{W: x, Blk: uint64(int64(cur[x]) + int64(r.Intn(4)) - 1)})
+				}
+			}
+			if len(its) > 0 {
+				c.Ops = append(c.Ops, flt([]string{"offerlog", "offerrecov"}[r.Intn(2)], its...))
 			}
 		case k < 62:
 			c.Ops = append(c.Ops, flt("should", item()))
